@@ -18,7 +18,7 @@ CHECKS = {
     "C10": (
         "exploration",
         "(a) differential monitor: patched Template.compile_nodelist/render vs the saved original Django methods on the same generated stock template families; (b) metamorphic monitor: extends/block/include family of a component program vs the hand-flattened program",
-        "(a) 2k (quick) / 100k (thorough) generated stock families (extends chains, includes, blocks with block.super, for/if/with/autoescape/firstof/cycle, custom tags/filters of a plain Library with quoted arguments, ~8% erroneous) x 2 contexts x engine.debug on/off are compiled and rendered with the patched methods and with the originals captured before django.setup(): output or exception text, the Context layers (keys and values), the render-context depth, the template binding and context.template_name left on the Context must be identical. (b) 4k / 60k E1 programs whose page / component templates are split - at the top level and inside fill bodies, slot defaults and loop bodies - into base+child(+grandchild)+include families (30% with every page-level tag written through the dynamic component) must render exactly like the flattened program in both modes; a monitor on BlockNode.render excludes families that render a block inside its own render. One listed finding (block state shared between nested extends-based templates) is attributed by a rename-based defect model.",
+        "(a) 2k (quick) / 100k (thorough) generated stock families (extends chains, includes, blocks with block.super, for/if/with/autoescape/firstof/cycle, custom tags/filters of a plain Library with quoted arguments, ~8% erroneous) x 2 contexts x engine.debug on/off are compiled and rendered with the patched methods and with the originals captured before django.setup(): output or exception text, the Context layers (keys and values), the render-context depth, the template binding and context.template_name left on the Context must be identical. (b) 4k / 60k E1 programs whose page / component templates are split - at the top level and inside fill bodies, slot defaults and loop bodies - into base+child(+grandchild)+include families (30% with every page-level tag written through the dynamic component) must render exactly like the flattened program in both modes; a monitor on BlockNode.render excludes families that render a block inside its own render. One listed finding (block state shared between nested extends-based templates) is attributed by a rename-based defect model; a second one ({{ block.super }} in the fill of a component nested in a block of an extends-based component never finishes rendering) is kept by a stored witness run under a logical instantiation guard.",
         "(a) trusts that swapping the two class attributes restores stock behaviour (asserted: the saved functions are Django's own); (b) equivalence is by construction under Django's documented semantics.",
         "DESIGN.md §2 C10",
     ),
